@@ -339,6 +339,12 @@ Do(c) == /\ En(S, c)
 Next == \E c \in Calls : Do(c)
 Spec == Init /\ [][Next]_vars
 
+\* a caller that keeps asking for rows is told the end (or an error) after finitely many calls: `for iter.Scan(...) {}`
+\* and `for scanner.Next() {}` terminate ("Scan returns ... false if the end of the result set was reached or if an
+\* error occurred")
+FairSpec == Spec /\ WF_vars(Do(Call("Scan", "ok"))) /\ WF_vars(Do(Call("Next", "-")))
+IterationEnds == [](S.mode \in {"iter", "scanner"} => <>(H.fin \/ S.closed \/ S.mode = "end"))
+
 \* the same graph without the history (edge dump: the abstract state only)
 DoS(c) == /\ En(S, c)
           /\ S' = Aft(S, c)
